@@ -16,6 +16,7 @@ import copy
 import decimal
 import itertools
 import json
+import os
 import random
 import warnings
 from fractions import Fraction
@@ -544,11 +545,19 @@ def gen_grid_case(r: random.Random, tier: str, flavour: str) -> dict[str, Any]:
         k = r.choice([1, 2, 2, 3, 4])
         if cells * k > (24 if tier == "quick" else 60):
             k = 1
-        vals = r.sample([0, 1, 2, 5, -3], min(k, 5)) if r.random() < 0.5 else r.sample(["a", "b", "zz", "q", None], k)
+        pool = r.random()
+        if pool < 0.4:
+            vals = r.sample([0, 1, 2, 5, -3], min(k, 5))
+        elif pool < 0.75:
+            vals = r.sample(["a", "b", "zz", "q", None], k)
+        else:
+            # float grid values incl. NaN / inf (legal for a categorical parameter): a NaN read back from a storage that
+            # serialises attributes is a DIFFERENT object, and NaN != NaN
+            vals = r.sample([0.0, float("nan"), 1.5, float("inf"), -2.25], k)
         space["p%d" % i] = vals
         cells *= k
     case: dict[str, Any] = {"kind": "grid", "flavour": flavour, "space": space, "pre": [], "rng_seed": r.randrange(1 << 30),
-                            "seed": r.choice([None, 0, 1, 7])}
+                            "seed": r.choice([None, 0, 1, 7]), "storage": r.choice(["mem", "mem", "sqlite", "journal"])}
     n = cells
     if flavour == "pre":
         for _ in range(r.choice([1, 1, 2, 3])):
@@ -593,7 +602,38 @@ def run_grid_real(case: dict[str, Any]) -> dict[str, Any]:
     sampler = GridSampler(space, seed=case["seed"])
     rec = RecRng(case["rng_seed"])
     sampler._rng = LazyStub(rec)  # type: ignore[assignment]
-    study = optuna.create_study(sampler=sampler)
+    import shutil
+    import tempfile
+
+    tmpd = tempfile.mkdtemp(prefix="c14grid_")
+    try:
+        return _run_grid_real_on(case, sampler, rec, tmpd)
+    finally:
+        shutil.rmtree(tmpd, ignore_errors=True)
+
+
+def _same(a: Any, b: Any) -> bool:
+    return a == b or (isinstance(a, float) and isinstance(b, float) and a != a and b != b)
+
+
+def _run_grid_real_on(case: dict[str, Any], sampler: Any, rec: Any, tmpd: str) -> dict[str, Any]:
+    import optuna
+    from optuna.samplers import GridSampler
+    from optuna.trial import TrialState, create_trial
+
+    space = case["space"]
+    kind_st = case.get("storage", "mem")
+    if kind_st == "sqlite":
+        storage: Any = optuna.storages.RDBStorage("sqlite:///" + os.path.join(tmpd, "g.db"))
+        # an unrelated study first: trial ids of the grid study differ from its trial numbers
+        optuna.create_study(storage=storage, study_name="other").optimize(lambda t: 0.0, n_trials=2)
+    elif kind_st == "journal":
+        from optuna.storages.journal import JournalFileBackend
+
+        storage = optuna.storages.JournalStorage(JournalFileBackend(os.path.join(tmpd, "g.log")))
+    else:
+        storage = None
+    study = optuna.create_study(sampler=sampler, storage=storage, study_name="grid")
     all_grids = [list(g) for g in sampler._all_grids]
     names = list(sampler._param_names)
     n = len(all_grids)
@@ -664,7 +704,7 @@ def run_grid_real(case: dict[str, Any]) -> dict[str, Any]:
         st = "finished" if t.state.is_finished() else ("running" if t.state == TrialState.RUNNING else "waiting")
         cell_ok = None
         if gid is not None and t.state.is_finished() and set(t.params) == set(names):
-            cell_ok = isinstance(gid, int) and 0 <= gid < n and [t.params[nm] for nm in names] == all_grids[gid]
+            cell_ok = isinstance(gid, int) and 0 <= gid < n and all(_same(t.params[nm], g) for nm, g in zip(names, all_grids[gid]))
         trials.append({"gid": gid, "state": st, "params": {k: t.params[k] for k in t.params}, "cell_ok": cell_ok,
                        "tstate": t.state.name})
     return {"n": n, "trials": trials, "stop": bool(study._stop_flag), "crashed": crashed,
